@@ -2,6 +2,7 @@ import GmqttVerif.Model.Codec.Size
 import GmqttVerif.Proofs.Codec.Prim
 import GmqttVerif.Proofs.Codec.Utf8
 import GmqttVerif.Proofs.Codec.TopicValid
+import GmqttVerif.Proofs.Codec.Props
 /-
   C06 — Packet codec is total, bounded and round-trips for every input.
 
@@ -139,7 +140,100 @@ theorem topic_filter_validity_orig_violated :
 theorem topic_name_validity_orig_violated : ¬ NameShape [] ∧ Orig.validTopicName true [] = true := by
   refine ⟨by simp [NameShape], by simp [Orig.validTopicName, Orig.validTopicNameLoop]⟩
 
+/-! ## 3. properties (`Properties.Unpack` / `Pack`, incl. the will variant) -/
+
+/-- `WFProps t ps` (Proofs/Codec/Props.lean): ids strictly ascending (= one entry per property, in `Pack` order), every
+    value of the right wire type and within the limits the decoder enforces (bool 0/1, Receive Maximum / Maximum
+    Packet Size / Topic Alias / Subscription Identifier non-zero, strings ≤ 65535 bytes of MQTT UTF-8, Response Topic a
+    topic name, exactly one Subscription Identifier, ≥ 1 User Property), every id permitted for packet type `t`
+    (`none` = will properties), Authentication Data only with Authentication Method, total length < 2^28.
+
+    Round trip: what `Pack` writes for a well-formed property set, `Unpack` reads back unchanged, consuming exactly the
+    property length field and the declared number of bytes. -/
+theorem props_roundtrip (t : Option Nat) (ps : Props) (h : WFProps t ps) (rest : Bytes) :
+    unpackProps t (packProps (some ps) ++ rest) = .ok (ps, rest) := unpackProps_packProps t ps h rest
+
+/-- the will variant: `PackWillProperties` writes the same bytes as `Pack` for a will property set -/
+theorem props_roundtrip_will (ps : Props) (h : WFProps none ps) (rest : Bytes) :
+    unpackProps none (packWillProps (some ps) ++ rest) = .ok (ps, rest) := by
+  rw [packWillProps_eq ps h.2.2.1]
+  exact unpackProps_packProps none ps h rest
+
+/-- Accepted ⇒ well-formed ⇒ re-encodes to bytes that decode to the same property set: every value `Unpack`
+    returns (for any byte string whatsoever: properties in any order, interleaved user properties, non-canonical
+    Subscription Identifier, over-long declared length …) satisfies `WFProps`, hence round-trips. -/
+theorem props_reencode_stable (t : Option Nat) (bufr : Bytes) (hb : AllBytes bufr) (ps : Props) (rest : Bytes)
+    (h : unpackProps t bufr = .ok (ps, rest)) :
+    WFProps t ps ∧ ∀ rest', unpackProps t (packProps (some ps) ++ rest') = .ok (ps, rest') :=
+  ⟨(unpackProps_wf t bufr ps rest hb h).1, fun rest' => unpackProps_reencode t bufr ps rest rest' hb h⟩
+
+/-- Total and bounded: `Unpack` is a total function; when it succeeds it has consumed the property-length field and
+    then exactly `min n available` bytes (`rest = after.drop n`), and the outcome depends only on that window:
+    replacing everything behind the window changes nothing. -/
+theorem props_unpack_total_and_bounded (t : Option Nat) (bufr : Bytes) (ps : Props) (rest : Bytes)
+    (h : unpackProps t bufr = .ok (ps, rest)) :
+    ∃ n pre after, bufr = pre ++ after ∧ decVbi bufr = .ok (n, after) ∧ n ≤ 268435455 ∧ rest = after.drop n ∧
+      (VbiTerminated pre → ∀ after', after'.take n = after.take n →
+        unpackProps t (pre ++ after') = .ok (ps, after'.drop n)) := by
+  have h' := h
+  simp only [unpackProps] at h
+  cases hd : decVbi bufr with
+  | error e => rw [hd] at h; cases h
+  | ok r =>
+    obtain ⟨n, after⟩ := r
+    obtain ⟨pre, hpre, hcase⟩ := decVbiAux_prefix bufr 0 0 n after hd
+    have hle := decVbiAux_le bufr 0 0 n after hd
+    refine ⟨n, pre, after, hpre, rfl, hle, ?_, ?_⟩
+    · rw [hd] at h
+      simp only at h
+      split at h
+      · rename_i h0; cases h; subst h0; simp
+      · split at h
+        · cases h
+        · split at h
+          · cases h
+          · cases h; rfl
+    · intro hterm after' htake
+      rcases hcase with ⟨_, hind⟩ | ⟨_, hnt⟩
+      · have hd' : decVbi (pre ++ after') = .ok (n, after') := hind after'
+        simp only [unpackProps, hd'] at h' ⊢
+        rw [hd] at h'
+        simp only at h'
+        rw [htake]
+        split at h'
+        · cases h'; rename_i h0; rw [if_pos h0]; subst h0; simp
+        · rename_i h0
+          rw [if_neg h0]
+          split at h'
+          · cases h'
+          · rename_i ps' hl
+            split at h'
+            · cases h'
+            · rename_i hc
+              cases h'
+              rw [if_neg hc]
+      · exact (hnt hterm).elim
+
 /-! ### non-vacuity -/
+
+/-- a CONNECT property set with five kinds of properties (u32, string, binary, u16, two user properties) is well-formed -/
+example : WFProps (some tCONNECT)
+    [(0x11, .u32 60), (0x15, .str [0x6D]), (0x16, .str [1, 2, 255]), (0x21, .u16 10),
+     (0x26, .users [([0x61], [0x62]), ([0x63], [])])] := by
+  have hm : validUTF8 [0x6D] = true := validUTF8_ascii _ (by simp)
+  have ha : validUTF8 [0x61] = true := validUTF8_ascii _ (by simp)
+  have hb : validUTF8 [0x62] = true := validUTF8_ascii _ (by simp)
+  have hc : validUTF8 [0x63] = true := validUTF8_ascii _ (by simp)
+  have he : validUTF8 [] = true := validUTF8_ascii _ (by simp)
+  refine ⟨by simp [SortedProps], ?_, ?_, by simp [Props.has, Props.get, List.lookup], by simp [packBody, encEntry, writeBin, writeU16, writeU32, vbiMax]⟩
+  · intro e he'
+    simp only [List.mem_cons, List.not_mem_nil, or_false] at he'
+    rcases he' with rfl | rfl | rfl | rfl | rfl <;>
+      simp [wfEntry, kindOf, propKinds, List.lookup, validU32, validU16, validStr, hm, ha, hb, hc, he]
+  · intro e he'
+    simp only [List.mem_cons, List.not_mem_nil, or_false] at he'
+    rcases he' with rfl | rfl | rfl | rfl | rfl <;> decide
+
 
 /-- "sport/+/é/#" is a filter per the specification (so the right-hand sides above are inhabited by non-trivial values) -/
 example : SpecFilter [0x73, 0x2F, 0x2B, 0x2F, 0xC3, 0xA9, 0x2F, 0x23] := by
@@ -159,7 +253,7 @@ example : SpecV5 ([0x24, 0x73, 0x68, 0x61, 0x72, 0x65, 0x2F] ++ [0x67] ++ 0x2F :
   · rw [if_pos (by simp [sharePrefix])]
     refine ⟨[0x67], [0x61], by simp [sharePrefix, cSlash], by simp, by simp [cSlash], by simp [cPlus], by simp [cHash], ?_⟩
     rw [filterShape_iff]
-    simp [filterBytes, headNotSlash, cHash, cPlus, cSlash]
+    simp [filterBytes, headNotSlash, cHash, cPlus]
 
 /-- a 4-byte variable byte integer round-trips -/
 example : decVbi ([0xFF, 0xFF, 0xFF, 0x7F] ++ [1, 2]) = .ok (268435455, [1, 2]) :=
